@@ -260,8 +260,26 @@ fn has_zero_elems(d: &Value) -> bool {
 	}
 }
 
-pub struct DecOpts {
-	pub inputs_per_type: usize,
+/// types for which short inputs are enumerated exhaustively (the MC_Decoder universe and its neighbours):
+/// at most three descriptor nodes, integer leaves of at most two bytes
+fn small_alphabet(d: &Value) -> bool {
+	fn nodes(d: &Value, wide: &mut bool) -> usize {
+		match d {
+			Value::Object(m) => {
+				let own = if m.contains_key("k") { 1 } else { 0 };
+				let k = m.get("k").and_then(|k| k.as_str()).unwrap_or("");
+				if matches!(k, "int" | "nonzero" | "compact") && m.get("w").and_then(|w| w.as_u64()).unwrap_or(0) > 2 { *wide = true }
+				if k == "duration" { *wide = true }
+				own + m.values().map(|v| nodes(v, wide)).sum::<usize>()
+			},
+			Value::Array(a) => a.iter().map(|v| nodes(v, wide)).sum(),
+			_ => 0,
+		}
+	}
+	if d.get("k").and_then(|k| k.as_str()) == Some("named") { return true }
+	let mut wide = false;
+	let n = nodes(d, &mut wide);
+	n <= 3 && !wide
 }
 
 /// Build the corpus of byte strings for a type: valid encodings and their mutations.
@@ -463,6 +481,29 @@ pub fn drive_dec<T: Reg + Encode + Decode>(ctx: &mut Ctx, mem_tracking: bool) {
 	let mut inputs = corpus::<T>(ctx, &mut g, per);
 	if prop == "C14" || prop == "C03" {
 		inputs.extend(prefixes::<T>(&mut g, 2 * ctx.scale, 48));
+	}
+	if (prop == "C03" || prop == "C05") && small_alphabet(&T::descr()) {
+		// the universe of MC_Decoder: every string of length <= 3 over its boundary alphabet (quick), plus every
+		// string of length <= 2 over all bytes (thorough) - exhaustive for types that look at few bytes
+		let alpha: &[u8] = if ctx.tier == "thorough" { &[0, 1, 2, 3, 4, 8, 64, 252, 253, 255] } else { &[0, 1, 2, 4, 8, 253, 255] };
+		inputs.push(("alpha", vec![], false));
+		for a in alpha {
+			inputs.push(("alpha", vec![*a], false));
+			for b in alpha {
+				inputs.push(("alpha", vec![*a, *b], false));
+				for c in alpha {
+					inputs.push(("alpha", vec![*a, *b, *c], false));
+				}
+			}
+		}
+		if ctx.tier == "thorough" && T::descr().get("k").and_then(|k| k.as_str()) != Some("seq") {
+			for a in 0..=255u8 {
+				inputs.push(("exh", vec![a], false));
+				for b in 0..=255u8 {
+					inputs.push(("exh", vec![a, b], false));
+				}
+			}
+		}
 	}
 	if prop == "C12" || prop == "C09" {
 		// values whose heap data exceeds one 16 KiB preallocation chunk / one tree node
